@@ -338,6 +338,19 @@ func c19Gen(t *rapid.T) C19Case {
 	}
 	c.F = c19GenFilter(t, s, c.Recs, "f")
 	c.G = c19GenFilter(t, s, c.Recs, "g")
+	// A case-insensitive literal filter meets a line with the characters whose case folding is
+	// special for exactly that literal.
+	if s.Format == "plain" && len(c.Recs) > 0 {
+		pairs := map[string][]string{
+			"(?i)info": {"İNFO started", "info INFO", "ınfo"}, "(?i)status": {"ſtatus ok", "STATUS"}, "(?i)οσ": {"λόγος", "ΛΟΓΟΣ"},
+			"(?i)k": {"temp 300K", "300K"}, "(?i)ss": {"STRASSE straße", "ſs"}, "(?i)error": {"ERROR Error error"}, "(?i)İ": {"İ", "i̇"}, "(?i)straße": {"STRASSE straße", "STRAẞE"},
+		}
+		for _, f := range []gen.Stage{c.F, c.G} {
+			if lines, ok := pairs[string(f.Value)]; ok && f.Kind == "linefilter" {
+				c.Recs[rapid.IntRange(0, len(c.Recs)-1).Draw(t, "fold-rec")].Line = gen.BS(rapid.SampledFrom(lines).Draw(t, "fold-line"))
+			}
+		}
+	}
 	for _, dst := range []*gen.Stage{&c.A, &c.B} {
 		for {
 			st := c19GenFilter(t, s, c.Recs, "ab")
